@@ -288,6 +288,59 @@ def check(ctx):
                f"{[t for k, t in facts_at(ut, r_) if not t.startswith('iter:')][:2]}): a NaN given as numpy.float64 is not of the exact type "
                f"float, so its type is reported and a sequence of dates with such a NaN is no longer inferred as dates",
                clause="maps None and NaN to the missing value of the inferred type")
+    # NA-dtype: with an explicit dtype the substituted missing value is THAT dtype's na_value, whatever the elements suggest.
+    # The assignments to the substituted name are replayed in order for the world `dtype is not None` (branches taken only
+    # when dtype is None are skipped); `a or b` is evaluated with every operand tried truthy and falsy -- a guessed value that
+    # is '' or None falls through, a guessed NaN / NaT does not.
+    ctx.rule("NA-dtype", "with an explicit dtype, the missing value substituted is that dtype's na_value on every path")
+    sub_name = norm(comp[0].elt.body) if isinstance(comp[0].elt.body, ast.Name) else None
+    dtp = next((p_ for p_ in std.all_params if p_ == "dtype"), None)
+    if sub_name and dtp:
+        import itertools as _it10
+        assigns = sorted([n for n in body_nodes(std.node) if isinstance(n, ast.Assign) and len(n.targets) == 1 and norm(n.targets[0]) == sub_name
+                          and n.lineno < comp[0].lineno], key=lambda n: n.lineno)
+        live = [n for n in assigns if not any((k == "T" and t == f"{dtp} is None") or (k == "F" and t == f"{dtp} is not None")
+                                              for k, t in facts_at(std, n))]
+
+        def _atoms(e, acc):
+            if isinstance(e, ast.BoolOp):
+                for v in e.values:
+                    _atoms(v, acc)
+            elif not (isinstance(e, ast.Name) and e.id == sub_name):
+                if norm(e) not in acc:
+                    acc.append(norm(e))
+        allat = []
+        for n in live:
+            _atoms(n.value, allat)
+
+        def _ev10(e, cur, truth):
+            if isinstance(e, ast.Name) and e.id == sub_name:
+                return cur
+            if isinstance(e, ast.BoolOp):
+                last = None
+                for v in e.values:
+                    last = _ev10(v, cur, truth)
+                    tv = truth.get(last, True)
+                    if (isinstance(e.op, ast.Or) and tv) or (isinstance(e.op, ast.And) and not tv):
+                        return last
+                return last
+            return norm(e)
+        def _is_dtype_na(t):
+            return t is not None and "na_value" in t and dtp in t
+        wit = None
+        uncond = [n for n in live if not any((k == "T" and t == f"{dtp} is not None") or (k == "F" and t == f"{dtp} is None") for k, t in facts_at(std, n))]
+        for combo in _it10.product((True, False), repeat=min(len(allat), 5)):
+            truth = dict(zip(allat, combo))
+            cur = None
+            for n in live:
+                cur = _ev10(n.value, cur, truth)
+            if live and not _is_dtype_na(cur) and wit is None:
+                wit = (cur, {k: v for k, v in truth.items() if not _is_dtype_na(k)})
+        ctx.ob("NA-dtype", std, f"{sub_name} with an explicit {dtp}: " + "; ".join(norm(n)[:50] for n in live)[:140], live[-1] if live else std.node, wit is None and bool(live),
+               f"the value substituted is the na_value of the given {dtp}" if wit is None and live else
+               f"with an explicit {dtp} the substituted value can be `{wit[0] if wit else '?'}` (when {wit[1] if wit else ''}) instead of the dtype's na_value: "
+               f"e.g. Vector([1, None], object) substitutes NaN -- which is_na() of an object vector does not report -- where None belongs",
+               clause="missing values are NaN / NaT / '' for the respective dtypes and None otherwise; is_na flags exactly those positions")
     facts = facts_at(std, comp[0])
     seqn = norm(comp[0].generators[0].iter)
     harmless = {seqn, f"len({seqn})", f"len({seqn}) > 0", f"not {seqn}", f"len({seqn}) == 0", f"{seqn} is not None", f"{seqn} is None"}
